@@ -19,9 +19,26 @@ KEYS = ['NodeId::metadata', 'NodeId::version', 'NodeId::updated', 'NodeId::tree'
 KEY_LAYOUT_ALL = ['key_encode_is_reference_layout', 'key_decode_accepts_reference_layout', 'key_byte_order_is_tuple_order',
                   'prefix_selects_exactly_its_index_and_kind', 'tree_range_contains_exactly_tree_keys_of_index', 'key_constructors']
 
+STORE_W = ['Writer::add_item', 'Writer::append_item', 'Writer::del_item', 'Writer::clear', 'Writer::contains_item',
+           'Writer::item_vector', 'Writer::iter', 'Writer::is_empty', 'Writer::need_build', 'item_leaf', 'ItemIter::next']
+STORE_R = ['Reader::open', 'Reader::dimensions', 'Reader::n_trees', 'Reader::n_items', 'Reader::item_ids', 'Reader::index',
+           'Reader::contains_item', 'Reader::item_vector', 'Reader::iter', 'Reader::is_empty', 'ItemIter::next', 'item_leaf', 'QueryBuilder::by_vector', 'QueryBuilder::by_item']
+
 PROPS = {
+    'C05': {
+        'verus': {'store': KEYS + STORE_W, 'reader_open': KEYS + STORE_R},
+        'kani': {'quick': [('key_layout', ['key_byte_order_is_tuple_order', 'prefix_selects_exactly_its_index_and_kind'])]},
+        'not_decided': [],
+    },
+    'C06': {
+        'verus': {'store': KEYS + ['Writer::add_item', 'Writer::append_item', 'Writer::del_item', 'Writer::clear', 'Writer::need_build'],
+                  'reader_open': KEYS + ['Reader::open']},
+        'kani': {'quick': [('key_layout', ['prefix_selects_exactly_its_index_and_kind'])]},
+        'not_decided': [],
+    },
     'C19': {
-        'verus': {'store': KEYS + ['Writer::add_item', 'Writer::append_item', 'Writer::del_item']},
+        'verus': {'store': KEYS + ['Writer::add_item', 'Writer::append_item', 'Writer::del_item'],
+                  'reader_open': KEYS + ['QueryBuilder::by_vector', 'Reader::dimensions']},
         'kani': {'quick': [('key_layout', ['key_byte_order_is_tuple_order'])]},
         'not_decided': [],
     },
